@@ -1757,3 +1757,219 @@ func r18_5(c *Ctx) {
 		c.ok(fnLabel(fn)+":wrapped-copy-order", P.pos(fn.Pos()), "resize does not use the two-copy idiom: order preservation is not decided by this rule")
 	}
 }
+
+// R08.5: start-index protocol between findIDInQueue and queue.each.
+// each(startAt) treats startAt == tail as "the whole ring" (that is how a full
+// ring is iterated from its head). A position computed from a *found* ID must
+// therefore never be returned while it may equal the write index: "nothing after
+// it" has to be reported as -1. Every non-negative return of findIDInQueue is
+// accepted only if, on every path, the returned value is the constant -1, is
+// q.head itself (replay everything from the oldest element), or was compared
+// with q.tail after its last modification and found different.
+func init() {
+	register(&Rule{ID: "R08.5", Title: "lookup/iteration protocol: a found position equal to the write index is reported as -1", Floor: 2, Run: r08_5})
+	for _, id := range []string{"C08", "C09", "C04"} {
+		if p := properties[id]; p != nil {
+			p.Rules = append(p.Rules, "R08.5")
+			p.Explanation += " R08.5 each(startAt) iterates the whole ring when startAt equals the write index, so findIDInQueue may return a non-negative index only if it is q.head itself (replay everything) or was compared with q.tail after its last modification and found different — this is the structural part of 'the newest ID replays nothing' (path enumeration over findIDInQueue)."
+		}
+	}
+}
+
+func r08_5(c *Ctx) {
+	P := c.P
+	var fn *ssa.Function
+	for _, f := range P.Funcs {
+		if f.Parent() == nil && f.Name() == "findIDInQueue" && f.Synthetic == "" && inSSEPackage(f) {
+			fn = f
+		}
+	}
+	if fn == nil {
+		c.anchor("findIDInQueue")
+		return
+	}
+	if len(loopsOf(fn)) > 0 {
+		c.undecided(fnLabel(fn)+":protocol", P.pos(fn.Pos()), "findIDInQueue contains a loop; the path enumeration of this rule does not apply")
+		return
+	}
+	isTail := func(v ssa.Value) bool { _, ok := isFieldLoad(v, "queue", "tail"); return ok }
+	isHead := func(v ssa.Value) bool { _, ok := isFieldLoad(v, "queue", "head"); return ok }
+	type st struct {
+		cell    map[ssa.Value]string // cell root -> neg1|head|checked|unknown
+		checked map[ssa.Value]bool   // SSA values known != tail
+		neg     map[ssa.Value]bool   // SSA values known == -1
+		phi     map[*ssa.Phi]ssa.Value
+	}
+	clone := func(s *st) *st {
+		n := &st{cell: map[ssa.Value]string{}, checked: map[ssa.Value]bool{}, neg: map[ssa.Value]bool{}, phi: map[*ssa.Phi]ssa.Value{}}
+		for k, v := range s.cell {
+			n.cell[k] = v
+		}
+		for k, v := range s.checked {
+			n.checked[k] = v
+		}
+		for k, v := range s.neg {
+			n.neg[k] = v
+		}
+		for k, v := range s.phi {
+			n.phi[k] = v
+		}
+		return n
+	}
+	// a load of a local cell remembers the cell state at load time
+	loadState := map[ssa.Value]string{}
+	type verdict struct {
+		bad  bool
+		desc string
+	}
+	results := map[*ssa.Return]*verdict{}
+	var classify func(s *st, v ssa.Value) string
+	classify = func(s *st, v ssa.Value) string {
+		if k, ok := constInt(v); ok {
+			if k == -1 {
+				return "neg1"
+			}
+			return "unknown"
+		}
+		if isHead(v) {
+			return "head"
+		}
+		if s.neg[v] {
+			return "neg1"
+		}
+		if s.checked[v] {
+			return "checked"
+		}
+		if p, ok := v.(*ssa.Phi); ok {
+			if r, ok := s.phi[p]; ok {
+				return classify(s, r)
+			}
+		}
+		if ls, ok := loadState[v]; ok {
+			return ls
+		}
+		return "unknown"
+	}
+	nPaths := 0
+	var walk func(b *ssa.BasicBlock, pred *ssa.BasicBlock, s *st, depth int)
+	walk = func(b *ssa.BasicBlock, pred *ssa.BasicBlock, s *st, depth int) {
+		if depth > 64 || nPaths > 20000 {
+			return
+		}
+		for _, in := range b.Instrs {
+			switch x := in.(type) {
+			case *ssa.Phi:
+				for i, p := range b.Preds {
+					if p == pred {
+						s.phi[x] = x.Edges[i]
+					}
+				}
+			case *ssa.Store:
+				if al, ok := cellRoot(x.Addr).(*ssa.Alloc); ok && x.Addr == ssa.Value(al) && al.Type().String() == "*int" {
+					s.cell[al] = classify(s, x.Val)
+					if s.cell[al] == "checked" {
+						s.cell[al] = "unknown" // a derived value must be re-checked
+					}
+				}
+			case *ssa.UnOp:
+				if x.Op == token.MUL {
+					if al, ok := cellRoot(x.X).(*ssa.Alloc); ok && x.X == ssa.Value(al) && al.Type().String() == "*int" {
+						stt, ok := s.cell[al]
+						if !ok {
+							stt = "unknown"
+						}
+						loadState[x] = stt
+					}
+				}
+			case *ssa.Call:
+				// a call that may write a captured cell (the search callback) makes it unknown
+				for _, a := range x.Call.Args {
+					if mc, ok := a.(*ssa.MakeClosure); ok {
+						for _, bnd := range mc.Bindings {
+							if al, ok := bnd.(*ssa.Alloc); ok {
+								if _, tracked := s.cell[al]; tracked {
+									s.cell[al] = "unknown"
+								}
+							}
+						}
+					}
+				}
+			case *ssa.If:
+				cnd := decodeIf(x)
+				for idx := 0; idx < 2; idx++ {
+					ns := clone(s)
+					if cnd.Y != nil && (cnd.Op == token.EQL || cnd.Op == token.NEQ) {
+						eqEdge := cnd.succWhen(cnd.Op == token.EQL)
+						var val, other ssa.Value
+						switch {
+						case isTail(cnd.Y):
+							val, other = cnd.X, cnd.Y
+						case isTail(cnd.X):
+							val, other = cnd.Y, cnd.X
+						}
+						_ = other
+						mark := func(v ssa.Value, what string) {
+							if what == "checked" {
+								ns.checked[v] = true
+							} else {
+								ns.neg[v] = true
+							}
+							if a, ok := loadedFrom(v); ok {
+								if al, ok := cellRoot(a).(*ssa.Alloc); ok && a == ssa.Value(al) {
+									cur := ns.cell[al]
+									if what == "neg1" || cur == "unknown" || cur == "" {
+										ns.cell[al] = what
+									}
+								}
+							}
+						}
+						if val != nil && idx != eqEdge {
+							mark(val, "checked")
+						}
+						// comparison with the constant -1
+						if k, ok := constInt(cnd.Y); ok && k == -1 && idx == eqEdge {
+							mark(cnd.X, "neg1")
+						}
+					}
+					walk(b.Succs[idx], b, ns, depth+1)
+				}
+				return
+			case *ssa.Jump:
+				walk(b.Succs[0], b, s, depth+1)
+				return
+			case *ssa.Return:
+				nPaths++
+				v := results[x]
+				if v == nil {
+					v = &verdict{}
+					results[x] = v
+				}
+				cl := classify(s, x.Results[0])
+				if cl == "unknown" {
+					v.bad = true
+					v.desc = describe(x.Results[0])
+				}
+				return
+			case *ssa.Panic:
+				return
+			}
+		}
+	}
+	walk(fn.Blocks[0], nil, &st{cell: map[ssa.Value]string{}, checked: map[ssa.Value]bool{}, neg: map[ssa.Value]bool{}, phi: map[*ssa.Phi]ssa.Value{}}, 0)
+	i := 0
+	for _, ret := range returnsOf(fn) {
+		v := results[ret]
+		name := fnLabel(fn) + ":return#" + itoa(i)
+		i++
+		if v == nil {
+			c.ok(name, P.ipos(ret), "unreachable return")
+			continue
+		}
+		if v.bad {
+			c.bad(name, P.ipos(ret), "a position that was not compared with the write index (q.tail) after its last modification can be returned ("+v.desc+"); when it equals q.tail — the ID presented is the newest one — queue.each replays the whole buffer instead of nothing",
+				"failing history: FiniteReplayer(N=3, auto IDs), Put a b c, Replay with Last-Event-ID 2 (the newest) -> a b c are replayed again; with manual IDs the same happens whenever the write index has wrapped to 0")
+		} else {
+			c.ok(name, P.ipos(ret), "the returned index is -1, q.head, or was found different from q.tail after its last modification")
+		}
+	}
+}
